@@ -2,10 +2,12 @@ package checks
 
 import (
 	"bytes"
+	"context"
 	"encoding/json"
 	"errors"
 	"fmt"
 	"io"
+	"os"
 	"strings"
 
 	"verif/mb"
@@ -16,11 +18,12 @@ import (
 
 type c12Case struct {
 	Shape   int    `json:"shape"`
-	Second  bool   `json:"second"`   // fault on the second render of the same Msg (boundaries cached)
-	SinkAt  int    `json:"sink_at"`  // sink fails once this many bytes were accepted (-1 = never)
-	Style   int    `json:"style"`    // 0 accepts the prefix then errors, 1 rejects the whole write
-	Prod    string `json:"prod"`     // producer that fails ("" = none)
-	ProdHow int    `json:"prod_how"` // 1 before data, 2 after half, 3 after all data
+	Second  bool   `json:"second"`             // fault on the second render of the same Msg (boundaries cached)
+	SinkAt  int    `json:"sink_at"`            // sink fails once this many bytes were accepted (-1 = never)
+	Style   int    `json:"style"`              // 0 accepts the prefix then errors, 1 rejects the whole write
+	Prod    string `json:"prod"`               // producer that fails ("" = none)
+	ProdHow int    `json:"prod_how"`           // 1 before data, 2 after half, 3 after all data
+	ErrKind int    `json:"err_kind,omitempty"` // which error value the failing producer returns (index into c12Errs)
 }
 
 var c12Text = []byte("Line one of the text.\r\nA second line with = equals and trailing blank \r\n.dot at line start\r\nLast line without newline")
@@ -52,8 +55,15 @@ func c12Shapes() []mb.Msg {
 		{Parts: []mb.Part{p(""), h}, Attach: []mb.File{f("a.bin")}, SMIME: 2, Inter: true},         // 11 S/MIME ECDSA mixed
 		{Enc: "b64", Parts: []mb.Part{p("8bit"), {Type: "text/html", Content: c12HTML, Enc: "qp"}}, Attach: []mb.File{{Name: "x.txt", Content: c12Text, Enc: "8bit"}}}, // 12 mixed encodings
 		{Parts: []mb.Part{p("")}, Embeds: []mb.File{f("e1.png"), f("e2.png")}, Boundary: "fixedboundary123"},                                                           // 13 fixed boundary
+		{Enc: "usascii", Parts: []mb.Part{{Type: "text/plain", Content: []byte("seven bit text\r\nsecond line\r\n")}}},                                                 // 14 single 7bit
+		{Enc: "usascii", Parts: []mb.Part{{Type: "text/plain", Content: []byte("seven bit text\r\n")}, h}, Attach: []mb.File{f("a.bin")}},                              // 15 7bit inside multiparts
+		{Parts: []mb.Part{{Type: "text/plain", Content: c12Text, Enc: "usascii"}}, Embeds: []mb.File{f("e.png")}},                                                      // 16 7bit part via WithPartEncoding
 	}
 }
+
+// c12Errs: the error values a failing producer may return — a harness that only injects one generic error cannot
+// see an error that is filtered by identity (io.EOF treated as "done").
+var c12Errs = []error{errProducer, io.EOF, fmt.Errorf("short source: %w", io.EOF), io.ErrUnexpectedEOF, context.Canceled, io.ErrShortWrite, io.ErrClosedPipe, os.ErrDeadlineExceeded}
 
 type faultSink struct {
 	at       int
@@ -92,15 +102,16 @@ func c12Exec(r *vf.Run, k c12Case) (keys, whats []string) {
 				return def(w)
 			}
 			prodFired = true
+			perr := c12Errs[k.ErrKind%len(c12Errs)]
 			switch k.ProdHow {
 			case 1:
-				return 0, errProducer
+				return 0, perr
 			case 2:
 				n, _ := w.Write(content[:len(content)/2])
-				return int64(n), errProducer
+				return int64(n), perr
 			default:
 				n, _ := w.Write(content)
-				return int64(n), errProducer
+				return int64(n), perr
 			}
 		}
 	}}
@@ -196,7 +207,7 @@ func init() {
 	vf.Register(&vf.Check{
 		ID: "C12", Title: "render failures are reported — never a panic, never silent success",
 		Run: func(r *vf.Run) {
-			r.SetRule("14 message shapes (single QP/base64/8bit, alternative, with description, related, mixed, all three levels, attachment-only ×1/×2, S/MIME ×2, mixed encodings, fixed boundary) × render {first, second} × a sink that starts failing at EVERY byte offset k of the output × {accepts the prefix then errors, rejects the whole write}; every producer × {fails before data, after half, after all data}; (thorough) producer failure × sink failure on an 8-byte grid; oracle: no panic, err != nil iff something failed, returned count = bytes the sink accepted; distinct by case tuple")
+			r.SetRule("17 message shapes (single QP/base64/8bit/7bit, alternative, with description, related, mixed, all three levels, attachment-only ×1/×2, S/MIME ×2, mixed encodings, fixed boundary) × render {first, second} × a sink that starts failing at EVERY byte offset k of the output × {accepts the prefix then errors, rejects the whole write}; every producer × {fails before data, after half, after all data} × 8 error values (generic, io.EOF plain and wrapped, io.ErrUnexpectedEOF, context.Canceled, …); (thorough) producer failure × sink failure on an 8-byte grid; oracle: no panic, err != nil iff something failed, returned count = bytes the sink accepted; distinct by case tuple")
 			r.Assume("a sink returns n <= len(p) and a non-nil error when n < len(p)", "S/MIME output length varies per signature; offsets beyond the actual length are fault-free runs")
 			shapes := c12Shapes()
 			var cases []c12Case
@@ -224,7 +235,9 @@ func init() {
 					cases = append(cases, c12Case{Shape: si, Second: second, SinkAt: -1})
 					for _, p := range c12Producers(spec) {
 						for how := 1; how <= 3; how++ {
-							cases = append(cases, c12Case{Shape: si, Second: second, SinkAt: -1, Prod: p, ProdHow: how})
+							for ek := range c12Errs {
+								cases = append(cases, c12Case{Shape: si, Second: second, SinkAt: -1, Prod: p, ProdHow: how, ErrKind: ek})
+							}
 							if r.Thorough {
 								for k := 0; k < L; k += 8 {
 									cases = append(cases, c12Case{Shape: si, Second: second, SinkAt: k, Style: k / 8 % 2, Prod: p, ProdHow: how})
